@@ -207,10 +207,16 @@ def eval_jet(tree, x0, K, ctx, with_noise=True, log_formula_noise=False, perturb
             v, d = (s, abs(c[0])) if name == 'sinh' else (c, abs(s[0]))
         elif name == 'tan':
             s, c = _sincos(u, K, mp)
+            if perturb is not None:      # (the library forms tan and tanh as quotients of separately rounded sin / cos)
+                s = [q * (1 + EPS * perturb()) for q in s]
+                c = [q * (1 + EPS * perturb()) for q in c]
             v = _div(s, c, K)
             d = 1 / abs(c[0]) ** 2
         elif name == 'tanh':
             s, c = _sincos(u, K, mp, hyperbolic=True)
+            if perturb is not None:
+                s = [q * (1 + EPS * perturb()) for q in s]
+                c = [q * (1 + EPS * perturb()) for q in c]
             v = _div(s, c, K)
             d = 1 / abs(c[0]) ** 2
         elif name == 'arctan':
